@@ -13,7 +13,8 @@ Mask rules modelled (dadi/Spectrum_mod.py arithmetic template, numpy/ma/core.py)
   (no domain masking: the template calls `self.data.__op__`);
 * `x.data`: the bare ndarray (mask dropped);
 * `numpy.ma.log`: additionally masks `x ≤ 0`; `numpy.ma.sqrt`: additionally masks `x < 0`;
-  `numpy.ma.power(x, e)`: additionally masks non-finite results (`x < 0`, and `x = 0` when `e < 0`);
+  `numpy.ma.power(x, e)`, `e` a non-integer constant: additionally masks non-finite results (`x < 0`, and `x = 0` when
+  `e < 0`); the translator refuses integer exponents (a negative base is then finite and stays visible);
 * a ufunc such as `gammaln` keeps the mask;
 * comparisons of masked arrays give masked booleans; `numpy.ma.masked_where(c, a)` masks `a` where `c` is
   true *or masked* (`make_mask` fills with True), keeping `a`'s own mask.
